@@ -706,6 +706,17 @@ impl Check for C16 {
         "C16"
     }
 
+    fn declared_probes(&self) -> Vec<&'static str> {
+        vec![
+            "fault.ambient-equal-arguments-with-spare-capacity",
+            "fault.ambient-fresh-process",
+            "fault.ambient-fresh-thread",
+            "fault.concurrent-callers",
+            "fault.input-declaration-order-permuted",
+            "fault.interleaved-history",
+        ]
+    }
+
     fn rule(&self) -> String {
         format!(
             "registry of {} rng-consuming public operations of ec-core / ec-linear / push (all selectors incl. weighted, dynamic and erased; \
